@@ -1,6 +1,22 @@
 HOOK_COMMITS = ["c99bd4d"]
 NOT_APPLICABLE = {}
+_KB_NOTE = ("K = 16 is a compile-time constant of the code: exhaustive TLC runs use K = 2/3, the code is bound at K = 16 by TLC simulation "
+            "walks (with scripted prefixes that fill a bucket / set up the IP-limit corner) and seeded random driver runs, each validated by TLC "
+            "against the same parametric specification. Model keys are embedded in 256-bit ids by bit placement (order preserving); virtual time "
+            "by the KBucketsTable::verif_age hook.")
 META = {
+ "C07": dict(
+   technique="TLA+ spec of the routing table (KBuckets.tla: bucket.rs/kbucket.rs/entry.rs transcribed call by call) model-checked exhaustively with TLC (invariants + action properties for the pending slot); TLC simulation behaviours replayed on the real KBucketsTable; implementation traces validated by TLC (C07 monitor formulas on observed tables + strict conformance)",
+   text="All operation sequences over 4-5 keys, K = 2/3, every connection state/direction, incoming limit, pending timeout elapsed/not elapsed are explored exhaustively on the specification (complete reachable space, no depth bound, stamps rank-normalised); the specification is bound to the code by replaying TLC-generated behaviours at K = 16 on the real table and validating every recorded step (full table incl. first_connected_pos and pending timer) with TLC. Bounded model checking + conformance, not a proof for all sizes.",
+   note=_KB_NOTE),
+ "C08": dict(
+   technique="TLA+ transcription of ClosestBucketsIter/ClosestIter/nodes_by_distances (KBuckets.tla) checked by TLC against the sorted full scan for all targets of a 3-bit key space and as a pure-function obligation (bucket order is a permutation) for 8 bits; closest_* / nodes_by_distances results of the real table checked by TLC against the scan of the same call's table",
+   text="Exhaustive on the specification for every (table, target) of the small key space; on the code every closest_keys/closest_values/closest_values_predicate/nodes_by_distances call made in generated and random behaviours (targets at every model distance incl. 0 and odd distances, real buckets 0..255 through varied placements) is compared with the sorted scan by TLC.",
+   note=_KB_NOTE),
+ "C16": dict(
+   technique="same KBuckets.tla specification with the two IP filters; TLC exhaustive with limits 2/2 on the design; scripted TLC simulation prefix (full bucket + pending candidate + table filled to the limit) and random driver on the real table with the crate's own IpTableFilter/IpBucketFilter at 2/10; observed tables checked by TLC (C16.Bucket, C16.Table)",
+   text="Exhaustive on the specification with small limits; on the code at the real limits for generated/random behaviours including the pending-promotion corner. Entry-API insertions are excluded when filters are on (documented in the code as bypassing the table filter).",
+   note=_KB_NOTE),
  "C15": dict(
    technique="TLA+ spec of the session cache (LruTimeCache.tla) model-checked exhaustively with TLC; TLC goal/simulation behaviours replayed on the real LruTimeCache; implementation traces validated by TLC (monitor formulas NoStale/Bound/EvictLru + strict conformance)",
    text="Exhaustive TLC exploration of the cache specification for 3-4 keys, capacities 1-4, ttl 1-3 with explicit time; the same specification is bound to the code in both directions: TLC-generated behaviours are executed on the real cache and every recorded step is validated by TLC against the specification and the property formulas. Decides the design within the bounds and the code on every generated/driven behaviour; not a proof for all sizes.",
